@@ -7,22 +7,33 @@ use std::ops::Range;
 
 pub const NSYM: u8 = 8;
 
-pub trait Tok: Clone + PartialEq + Debug + 'static + Send + Sync {
+pub trait Tok: Clone + PartialEq + Debug + 'static + Send + Sync + chumsky::text::Char {
     fn from_sym(s: u8) -> Self;
     fn to_sym(&self) -> u8;
 }
 
+/// Symbols 0..8 are the abstract alphabet of the generated grammars; 8..16 are only used by cases with
+/// text parsers (whitespace, newlines, digits, underscore): see gram::G::Text / G::Padded.
+pub const BYTES: [u8; 16] = [b'a', b'b', b'c', b'd', b'e', b'f', b'g', b'h', b' ', b'\n', b'\r', b'0', b'7', b'_', b'\t', b'Z'];
+
 impl Tok for u8 {
     fn from_sym(s: u8) -> u8 {
-        b'a' + s
+        BYTES[s as usize % BYTES.len()]
     }
     fn to_sym(&self) -> u8 {
-        self.wrapping_sub(b'a')
+        BYTES.iter().position(|c| c == self).map(|p| p as u8).unwrap_or(255)
     }
 }
 
-/// 1-, 2-, 3- and 4-byte characters so that &str byte offsets differ from token indices.
-pub const CHARS: [char; 8] = ['a', 'é', 'b', '日', 'c', '😀', 'd', 'ß'];
+/// 1-, 2-, 3- and 4-byte characters so that &str byte offsets differ from token indices; 8..16 as
+/// for bytes, with a 3-byte (U+2028) and a 2-byte (U+0085) line terminator.
+pub const CHARS: [char; 16] = ['a', 'é', 'b', '日', 'c', '😀', 'd', 'ß', ' ', '\n', '\r', '0', '7', '_', '\u{2028}', '\u{85}'];
+
+/// Display form of a symbol in logs, S-expressions and replay files.
+pub fn sym_char(s: u8) -> char {
+    const SHOW: [char; 16] = ['a', 'b', 'c', 'd', 'e', 'f', 'g', 'h', '␣', '␤', '␍', '0', '7', '_', '⇥', 'Z'];
+    SHOW.get(s as usize).copied().unwrap_or('?')
+}
 
 impl Tok for char {
     fn from_sym(s: u8) -> char {
